@@ -65,6 +65,10 @@ func helperOfReviewed(p *Prog, fn *ssa.Function, kind, ch string) []string {
 }
 
 func runC09(p *Prog, r *Report) {
+	if want("C09.14") {
+		// compaction requests never wait on a goroutine that cannot answer
+		ruleCompTriggerSiblings(p, r, "C09.14")
+	}
 	if want("C09.13") {
 		// (shared with C18) a send on a closed channel panics the caller
 		ruleNoSendOnClosedChannel(p, r, "C09.13")
